@@ -21,7 +21,10 @@ RULE = ("(TLE, time) pairs from the repo's test TLEs and the near-earth generato
         "and the iteration count (model vs Orbital.get_lonlatalt and geoloc.get_lonlatalt), observer position/velocity at "
         "1e-11; oracle: ranges, WGS-84 round trip 2e-6 |r| against an independent geodesy + IAU-82 GMST, observer = inverse, "
         "velocity = omega x r (scalar observers and observer arrays of dtype float64/float32/int64, 0-d, 1-d, 2-d), module = "
-        "method exactly (also for batches in which some positions are NaN), local time; explicit positions on the polar axis and "
+        "method exactly (also for batches in which some positions are NaN), local time; batches of 1, 2, 3, 4, 5, 7 positions "
+        "and (M, N) blocks incl. M or N = 3 in the documented layout (components along the first axis) through geoloc.get_lonlatalt "
+        "(time array / one instant), Orbital.get_lonlatalt and observer_position (same shapes, one instant / one per observer): "
+        "result shape, each element = the scalar conversion and the 2e-6 round trip of its own position; explicit positions on the polar axis and "
         "1e-12..1 km off it (both hemispheres, pole surface to GEO height) through geoloc.get_lonlatalt with the same 2e-6 round "
         "trip; distinct = (tle, time) or observer or explicit position")
 ASSUMPTIONS = ["convergence of the latitude fixed-point iteration is proved over the reals (PV.Props.C04Conv); its float execution and the float round trip are measured",
@@ -163,19 +166,44 @@ def oracle(ctx):
     _oracle_polar(ctx)
 
 
-def _obs_array_case(kind, lons, lats, alts, tiso):
-    return {"kind": kind, "lons": [float(x) for x in lons], "lats": [float(x) for x in lats], "alts": [float(x) for x in alts], "utc": tiso}
+def _obs_array_case(kind, lons, lats, alts, tiso, shape=None, utcs=None):
+    case = {"kind": kind, "lons": [float(x) for x in lons], "lats": [float(x) for x in lats], "alts": [float(x) for x in alts], "utc": tiso}
+    if shape is not None:
+        case["shape"] = list(shape)
+    if utcs is not None:
+        case["utcs"] = list(utcs)
+    return case
 
 
-def _check_observer_array(ctx, kind, lons, lats, alts, t):
-    """observer_position on array-valued observers (any dtype) = the inverse WGS-84 conversion per element, velocity = w x r."""
+def _check_observer_array(ctx, kind, lons, lats, alts, t, shape=None, utcs=None):
+    """observer_position on array-valued observers (any dtype) = the inverse WGS-84 conversion per element, velocity = w x r.
+    shape: the observers arranged in an array of that shape (any number of observers, 1-D or 2-D) instead of the layout the
+    kind implies; utcs: one instant per observer (a time array of the same shape) instead of the single instant t."""
     from pyorbital import astronomy
-    mk = {"f64": lambda x: np.array(x, dtype=np.float64), "f32": lambda x: np.array(x, dtype=np.float32),
-          "i64": lambda x: np.array(x, dtype=np.int64), "f64_2d": lambda x: np.array(x, dtype=np.float64).reshape(2, -1),
-          "0d": lambda x: np.array(x[0], dtype=np.float64)}[kind]
+    if shape is not None:
+        dtp = {"f64": np.float64, "f32": np.float32, "i64": np.int64}[kind]
+        mk = lambda x: np.array(x, dtype=dtp).reshape(tuple(shape))    # noqa: E731
+    else:
+        mk = {"f64": lambda x: np.array(x, dtype=np.float64), "f32": lambda x: np.array(x, dtype=np.float32),
+              "i64": lambda x: np.array(x, dtype=np.int64), "f64_2d": lambda x: np.array(x, dtype=np.float64).reshape(2, -1),
+              "0d": lambda x: np.array(x[0], dtype=np.float64)}[kind]
     a_lon, a_lat, a_alt = mk(lons), mk(lats), mk(alts)
-    (p, v) = astronomy.observer_position(t, a_lon, a_lat, a_alt)
     shp = np.broadcast(a_lon, a_lat, a_alt).shape
+    if utcs is not None:
+        tl = [dt.datetime.fromisoformat(u) for u in utcs]
+        targ = np.array([np.datetime64(x) for x in tl]).reshape(shp)
+    else:
+        tl = None
+        targ = t
+    (p, v) = astronomy.observer_position(targ, a_lon, a_lat, a_alt)
+    shapes = [np.shape(x) for x in list(p) + list(v)]
+    # x, y, z, vx, vy are arrays of the observers' shape (vz is identically zero and may be returned 0-d)
+    if not (all(s_ == shp for s_ in shapes[:5]) and shapes[5] in (shp, ())):
+        case = _obs_array_case(kind, lons, lats, alts, t.isoformat(), shape, utcs)
+        case["index"] = 0
+        ctx.violation("observer_position_array", case, {"result_shapes": [list(s_) for s_ in shapes]},
+                      "position and velocity components of the observers' shape %r" % (list(shp),), site="astronomy.observer_position")
+        return 1
     P = np.array([np.broadcast_to(np.asarray(x, dtype=np.float64), shp).ravel() for x in p])
     V = np.array([np.broadcast_to(np.asarray(x, dtype=np.float64), shp).ravel() for x in v])   # vz is a 0-d zero
     rl, rt, ra = (np.asarray(a_lon, dtype=np.float64).ravel(), np.asarray(a_lat, dtype=np.float64).ravel(),
@@ -185,8 +213,8 @@ def _check_observer_array(ctx, kind, lons, lats, alts, t):
     bad = 0
     for i in range(P.shape[1]):
         ctx.count("eval_oracle_obs_array")
-        ref = geo.geodetic_to_eci(float(rl[i]), float(rt[i]), float(ra[i]), geo.gmst_ref(t))
-        case = _obs_array_case(kind, lons, lats, alts, t.isoformat())
+        ref = geo.geodetic_to_eci(float(rl[i]), float(rt[i]), float(ra[i]), geo.gmst_ref(t if tl is None else tl[i]))
+        case = _obs_array_case(kind, lons, lats, alts, t.isoformat(), shape, utcs)
         case["index"] = i
         if not np.linalg.norm(P[:, i] - ref) <= tol * np.linalg.norm(ref) + 1e-9:
             ctx.violation("observer_position_array", case, list(P[:, i]), list(ref), site="astronomy.observer_position")
@@ -213,6 +241,87 @@ def _oracle_observer_arrays(ctx):
         ctx.bump("observer_array_kind", kind)
         ctx.distinct(("obsarr", kind, obs[0]))
         _check_observer_array(ctx, kind, [o[0] for o in obs], [o[1] for o in obs], [o[2] for o in obs], t)
+    # any number of observers (1, 2, 3, 4, 5, 7 ...), 1-D and 2-D incl. an axis of length 3, with one instant for all and with
+    # one instant per observer
+    for rep in range(ctx.size(2, 12)):
+        for shape in BATCH_SHAPES:
+            k = int(np.prod(shape))
+            kind = r.choice(["f64", "f64", "f32", "i64"])
+            obs = [rand_observer(ctx) for _ in range(k)]
+            if kind == "i64":
+                obs = [(round(a), round(b), round(c)) for a, b, c in obs]
+            if kind == "f32":
+                obs = [(float(np.float32(a)), float(np.float32(b)), float(np.float32(min(c, 5.0)))) for a, b, c in obs]
+            t = dt.datetime(2000, 1, 1) + dt.timedelta(seconds=r.uniform(-20 * 365 * 86400, 40 * 365 * 86400))
+            utcs = None
+            if (rep + len(shape) + k) % 2:
+                utcs = [(t + dt.timedelta(seconds=r.uniform(-86400, 86400))).isoformat() for _ in range(k)]
+            ctx.bump("observer_array_shape", "x".join(str(d) for d in shape) + ("/time array" if utcs else "/one instant"))
+            ctx.distinct(("obsshape", kind, shape, obs[0]))
+            _check_observer_array(ctx, kind, [o[0] for o in obs], [o[1] for o in obs], [o[2] for o in obs], t, shape, utcs)
+
+
+# batch layouts: positions (3, N) and (3, M, N) for times of shape (N,) and (M, N); every small N, and an axis of length 3
+BATCH_SHAPES = [(1,), (2,), (3,), (4,), (5,), (7,), (1, 1), (1, 3), (3, 1), (2, 2), (2, 3), (3, 2), (3, 3), (3, 4), (4, 3), (3, 5),
+                (5, 3), (3, 7), (2, 5)]
+BATCH_ENTRIES = ["module", "module_one_time", "method"]
+
+
+def _check_shape_batch(ctx, a, b, tisos, shape, entry, o=None):
+    """A batch of positions / times in the documented layout -- components along the FIRST axis, (3, N) or (3, M, N), times of
+    shape (N,) or (M, N) -- through geoloc.get_lonlatalt (entry `module`; `module_one_time`: one instant for the whole batch)
+    or Orbital.get_lonlatalt (entry `method`).  Each element must be the conversion of that position alone: equal to the
+    scalar conversion (1e-9 deg, 1e-6 km: the same function evaluated in a batch), in range, and converting back with WGS-84 +
+    GMST reproduces that position to 2e-6 of its length.  The results have the shape of the batch."""
+    from pyorbital import geoloc, orbital
+    o = o or orbital.Orbital("x", line1=a, line2=b)
+    shape = tuple(shape)
+    ts = [dt.datetime.fromisoformat(x) for x in tisos]
+    arr = np.array([np.datetime64(t) for t in ts]).reshape(shape)
+    cols = [np.array(o.get_position(t, normalize=False)[0], dtype=np.float64) for t in ts]   # each position from its own scalar call
+    pos = np.stack(cols, axis=1).reshape((3,) + shape)
+    with np.errstate(all="ignore"):
+        if entry == "module":
+            m = geoloc.get_lonlatalt(pos.copy(), arr)
+        elif entry == "module_one_time":
+            m = geoloc.get_lonlatalt(pos.copy(), ts[0])
+        else:
+            m = o.get_lonlatalt(arr)
+    site = "Orbital.get_lonlatalt" if entry == "method" else "geoloc.get_lonlatalt"
+    base = {"shape_batch": entry, "line1": a, "line2": b, "utcs": list(tisos), "shape": list(shape)}
+    shapes = [np.shape(x) for x in m]
+    if not all(s_ == shape for s_ in shapes):
+        ctx.violation("batch_shape", dict(base, index=0), {"result_shapes": [list(s_) for s_ in shapes]},
+                      "lon, lat, alt of shape %r (positions %r)" % (list(shape), [3] + list(shape)), site=site)
+        return 1
+    M = [np.asarray(x, dtype=np.float64).ravel() for x in m]
+    bad = 0
+    for i, t in enumerate(ts):
+        ctx.count("eval_oracle_shape_batch")
+        tconv = ts[0] if entry == "module_one_time" else t
+        if entry == "method":
+            s = [float(x) for x in o.get_lonlatalt(t)]
+        else:
+            s = [float(x) for x in geoloc.get_lonlatalt(cols[i].copy(), tconv)]
+        got = [float(M[k][i]) for k in range(3)]
+        case = dict(base, index=i)
+        dlon = abs(got[0] - s[0])
+        dlon = min(dlon, abs(dlon - 360.0))
+        back = geo.geodetic_to_eci(got[0], got[1], got[2], geo.gmst_ref(tconv))
+        err = float(np.linalg.norm(back - cols[i]) / np.linalg.norm(cols[i]))
+        if not (-180.0 < got[0] <= 180.0 and -90.0 <= got[1] <= 90.0):
+            ctx.violation("batch_range", case, got, "lon in (-180, 180], lat in [-90, 90]", site=site)
+            bad += 1
+        elif not err <= 2e-6:
+            ctx.violation("batch_roundtrip", case, {"lonlatalt": got, "position_km": [float(x) for x in cols[i]], "rel_err": err},
+                          "<= 2e-6 |r| (element %d of the batch is the sub-point of position %d)" % (i, i), site=site)
+            bad += 1
+        elif not (dlon <= 1e-9 and abs(got[1] - s[1]) <= 1e-9 and abs(got[2] - s[2]) <= 1e-6):
+            ctx.violation("batch_vs_scalar", case, got, s, site=site)
+            bad += 1
+        if bad >= 3:
+            break
+    return bad
 
 
 def _check_batch(ctx, a, b, tisos, nan_cols, o=None):
@@ -285,6 +394,21 @@ def _oracle_batches(ctx):
             ctx.distinct(("batch", a, tuple(nan_cols)))
             ctx.bump("batch_nan_columns", len(nan_cols))
             _check_batch(ctx, a, b, [t.isoformat() for t in ts], nan_cols, o)
+        # ... and batches of 3, 4, 5 positions with and without a NaN column
+        for nb in (3, 4, 5):
+            for nan_cols in ([], [r.randrange(nb)]):
+                ctx.bump("batch_nan_columns", "%d of %d" % (len(nan_cols), nb))
+                _check_batch(ctx, a, b, [t.isoformat() for t in ts[:nb]], nan_cols, o)
+    # every batch size and layout through every array-taking conversion, each element judged on its own
+    for (a, b, o) in orbitals(ctx, ctx.size(4, 40)):
+        for shape in BATCH_SHAPES:
+            for entry in BATCH_ENTRIES:
+                ts = orbits.rand_times(ctx, o, int(np.prod(shape)))
+                if len(ts) < int(np.prod(shape)):
+                    continue
+                ctx.distinct(("shape_batch", a, shape, entry))
+                ctx.bump("batch_shape", "x".join(str(d) for d in shape) + "/" + entry)
+                _check_shape_batch(ctx, a, b, [t.isoformat() for t in ts], shape, entry, o)
 
 
 POLAR_Z = [6356.7524, 6400.0, 7000.0, 7200.0, 26560.0, 42164.0]
@@ -340,9 +464,14 @@ def replay(ctx, case):
         bad = _check_dateline(ctx, inp["utc"], inp["r_km"], inp["z_km"], inp["delta"])
         print("date-line case", inp, "violations", bad)
         return 1 if bad else 0
+    if "shape_batch" in inp:
+        bad = _check_shape_batch(ctx, inp["line1"], inp["line2"], inp["utcs"], inp["shape"], inp["shape_batch"])
+        print("batch of shape", inp["shape"], "through", inp["shape_batch"], "violations:", bad)
+        return 1 if bad else 0
     if "lons" in inp:
         n0 = len(ctx.violations)
-        _check_observer_array(ctx, inp["kind"], inp["lons"], inp["lats"], inp["alts"], dt.datetime.fromisoformat(inp["utc"]))
+        _check_observer_array(ctx, inp["kind"], inp["lons"], inp["lats"], inp["alts"], dt.datetime.fromisoformat(inp["utc"]),
+                              inp.get("shape"), inp.get("utcs"))
         print("observer array case", inp, "violations:", len(ctx.violations) - n0)
         return 1 if len(ctx.violations) > n0 else 0
     if "nan_cols" in inp:
